@@ -87,10 +87,10 @@ def run_case(plan_factory, requests=(), decision="resume", *, fail_call=None, fa
 
         def hook(step):
             for u in upd:
-                if u["step"] == step and not u.get("done"):
+                if u["step"] <= step and not u.get("done"):  # '<=': a nested pump can skip hook calls; a due update lands at the next one
                     u["done"] = True
                     devices[u["signal"]].put(u["value"])
-                    obs.reqs.append(dict(kind="update", step=step, state=str(RE.state), runs_open=len(RE._run_bundlers), signal=u["signal"], value=u["value"]))
+                    obs.reqs.append(dict(kind="update", step=step, state=str(RE.state), runs_open=len(RE._run_bundlers), signal=u["signal"], value=u["value"], t=lab.clock.t))
             for r in pending:
                 if r["step"] == step and not r.get("done"):
                     r["done"] = True
